@@ -126,3 +126,7 @@ def set_atom_makers():
         for f in (is_subset_p, is_real_subset_p, is_superset_p, is_real_superset_p):
             out.append(lambda f=f, s=s: f(set(s)))
     return out
+
+# re-exported for plugins
+all_p = all_p
+any_p = any_p
